@@ -18,6 +18,11 @@ func init() {
 }
 
 func runC20(p *Prog, r *Report) {
+	nilSafe(p, r, "C20.15/nil-safe", "macat's socket exists only after the protocol option was given: every loop that uses it is reached only through the test in Run", func(fn *ssa.Function) bool {
+		rel, _ := p.FuncRel(fn)
+		return rel == "macat"
+	})
+	r.Floor("C20.15/nil-safe", "e12b.uses.C20.15/nil-safe", 5)
 	q := NewQ(p, r)
 	R := "C20.1/length-narrowing"
 	r.Describe(R, "byte(len(x)) needs len(x) < 256, uint16(len(x)) needs len(x) < 65536 as dominating guards (all functions of macat)")
